@@ -52,6 +52,9 @@ pub struct Case {
     pub termination: Termination,
     /// phase B: contenders against the holder
     pub contenders: Vec<(Api, u64)>,
+    /// phase B': contenders started shortly before the holder ends: (api, lead time ms)
+    #[serde(default)]
+    pub late: Vec<(Api, u64)>,
     pub after: Api,
 }
 
@@ -71,13 +74,15 @@ pub fn strategy() -> impl Strategy<Value = Case> {
         prop_oneof![2 => Just(HolderKind::GatedRun), 1 => api().prop_map(HolderKind::Delayed)],
         prop_oneof![Just(Termination::Normal), Just(Termination::Failure), Just(Termination::Sigkill)],
         vec((api(), 0u64..60), 1..=7),
+        vec((api(), 110u64..400), 0..=2),
         api(),
     )
-        .prop_map(|(race, holder, termination, contenders, after)| Case {
+        .prop_map(|(race, holder, termination, contenders, late, after)| Case {
             race,
             holder,
             termination,
             contenders,
+            late,
             after,
         })
 }
@@ -183,6 +188,30 @@ fn check_exclusion(points: &[PointLine], killed: Option<(u32, u128)>) -> Result<
         }
     }
     iv.sort_by_key(|x| x.1);
+    // (iv) whoever tried to acquire while another process demonstrably held the lock (the
+    // attempt is logged before the bind, the holder's acquisition after its bind, its release
+    // before the guard drops; 100 ms margin for the time between the attempt line and the
+    // bind system call) must never acquire
+    const MARGIN_NS: u128 = 100_000_000;
+    for p in points.iter().filter(|p| p.name == "lock.attempt") {
+        for h in iv.iter().filter(|h| h.0 != p.pid) {
+            if h.1 < p.ns && p.ns + MARGIN_NS < h.2 {
+                if let Some(acq) = points.iter().find(|q| q.pid == p.pid && q.name == "lock.acquired") {
+                    return viol_obs(
+                        "c14.acquired.after.busy.attempt",
+                        format!(
+                            "process {} tried to acquire while process {} held the lock (and kept holding it for {} ms more) but acquired the lock {} ms later instead of failing with a lock error",
+                            p.pid,
+                            h.0,
+                            (h.2 - p.ns) / 1_000_000,
+                            (acq.ns.saturating_sub(p.ns)) / 1_000_000
+                        ),
+                        json!({"attempt_ns": p.ns.to_string(), "holder": {"pid": h.0, "acquired": h.1.to_string(), "released": h.2.to_string()}}),
+                    );
+                }
+            }
+        }
+    }
     for w in iv.windows(2) {
         if w[1].1 < w[0].2 {
             return viol_obs(
@@ -339,6 +368,21 @@ pub fn check(case: &Case, w: usize) -> CheckResult {
                 return viol("c14.contender.started", format!("{:?} ran while the lock was held but started an executable", c.api));
             }
         }
+        // the holder's own slot (no result file yet) is written by the holder itself
+        let completed = |snap: &BTreeMap<String, String>| -> BTreeMap<String, String> {
+            snap.iter()
+                .filter(|(k, _)| {
+                    if let Some(rest) = k.strip_prefix("run/") {
+                        let id = rest.split('/').next().unwrap_or("");
+                        !id.is_empty() && snap1.contains_key(&format!("run/{}/result.json.zst", id))
+                    } else {
+                        true
+                    }
+                })
+                .map(|(k, v)| (k.clone(), v.clone()))
+                .collect()
+        };
+        let (snap1, snap2) = (completed(&snap1), completed(&snap2));
         if snap1 != snap2 {
             holder.kill_group();
             let changed: Vec<&String> = snap1
@@ -352,6 +396,26 @@ pub fn check(case: &Case, w: usize) -> CheckResult {
                 json!({"changed": changed}),
             );
         }
+    }
+    // ---- late contenders: started shortly before the holder ends
+    let mut late_running = vec![];
+    if holder_still_inside && case.holder == HolderKind::GatedRun {
+        let max_lead = case.late.iter().map(|l| l.1).max().unwrap_or(0);
+        let t_late = Instant::now();
+        let mut order: Vec<(usize, Api, u64)> = case.late.iter().enumerate().map(|(i, (a, l))| (i, *a, *l)).collect();
+        order.sort_by_key(|x| std::cmp::Reverse(x.2));
+        for (i, a, lead) in order {
+            let wait = Duration::from_millis(max_lead - lead).saturating_sub(t_late.elapsed());
+            std::thread::sleep(wait);
+            let trace_dir = env.case_dir.join(format!("trace-late-{}", i));
+            let _ = std::fs::create_dir_all(&trace_dir);
+            let r = env.mr_spawn(
+                &a.args(),
+                &[("MRV_POINT_LOG", log.display().to_string()), ("MRV_TRACE", trace_dir.display().to_string())],
+            );
+            late_running.push(r);
+        }
+        std::thread::sleep(Duration::from_millis(max_lead).saturating_sub(t_late.elapsed()));
     }
     // ---- end of the holder
     let mut killed = None;
@@ -370,8 +434,12 @@ pub fn check(case: &Case, w: usize) -> CheckResult {
             }
         }
     }
-    env.kill_groups();
     env.open_gate("gate-open"); // a later `run` must not block on the holder's gate
+    let had_late = !late_running.is_empty();
+    for r in late_running {
+        let _ = r.wait(Duration::from_secs(60));
+    }
+    env.kill_groups();
     // (iii) the next invocation acquires the lock at once
     let fresh_trace = env.case_dir.join("trace-after");
     let _ = std::fs::create_dir_all(&fresh_trace);
@@ -396,6 +464,7 @@ pub fn check(case: &Case, w: usize) -> CheckResult {
         .class_if(!holder_still_inside, "holder-left-early(not judged)")
         .class_if(holders_a >= 2, "race-with>=2-winners")
         .class_if(holders_b >= 2, "phaseB-with>=2-holders")
+        .class_if(had_late, "late-contenders")
         .inv(env.invocations))
 }
 
@@ -404,9 +473,9 @@ pub fn run(ctx: &mut Ctx) {
     ctx.shrink_budget = Duration::from_secs(30);
     ctx.rule = "phase A: 2-8 invocations drawn from {run, checkpoint update, update -p, checkpoint delete, out delete --all} sharing one lock address, started with offsets 0-100 ms. \
 phase B: a holder kept inside its critical section (a `run` whose helper blocks on a gate, or any of the APIs delayed right after lock acquisition), 1-7 contenders started while it is inside, \
-holder termination by normal exit, failing run or SIGKILL, then one more invocation. oracle: (i) from the point log, [lock.acquired, lock.release] intervals of different processes never overlap (a killed \
+0-2 late contenders started 110-400 ms before the holder ends, holder termination by normal exit, failing run or SIGKILL, then one more invocation. oracle: (i) from the point log, [lock.acquired, lock.release] intervals of different processes never overlap (a killed \
 holder's interval ends at a time stamp taken before the kill); (ii) a process that never acquired, and every contender that ran while the holder was provably inside, ends non-zero with a lock error, \
-starts no executable (own trace directory), and the out directory is byte-identical before/after the contenders; (iii) after the holder ended the next invocation does not get a lock error. \
+starts no executable (own trace directory), and the out directory is byte-identical before/after the contenders; (iii) after the holder ended the next invocation does not get a lock error; (iv) a process whose bind attempt (lock.attempt) fell inside another process's holding interval, with 100 ms to spare before the release, never acquires. \
 non-trivial = at least one contender overlapped the holder; distinct by SHA-256"
         .to_string();
     ctx.assumptions = vec![
